@@ -20,10 +20,10 @@ import (
 	"testing/synctest"
 	"time"
 
+	"ecalharness/harness/gen07"
 	"github.com/krotik/ecal/interpreter"
 	"github.com/krotik/ecal/parser"
 	"github.com/krotik/ecal/util"
-	"ecalharness/harness/gen07"
 	"simrt"
 )
 
@@ -214,7 +214,6 @@ func walk(input string) (o outcome) {
 	}
 	return outcome{tree: true}
 }
-
 
 // ---------------------------------------------------------------------------
 
